@@ -188,7 +188,7 @@ impl Prop for C13 {
         "case = (pair of segment lists drawn from ONE shared lattice (interleaved, nested, identical, prefix-of-each-other, duplicate ends, ±0, ±inf, adjacent floats; 1..=L pieces each, L=8 quick / 24 thorough); pieces are IntOfLogPoly4: tag pieces (fields encode the piece index: i for f, 64j for g) or value pieces with random finite fields or the repository's benchmark pieces; operator + or -). Oracle: (1) result non-empty, ends non-decreasing, every end equal to an end of f or g, len <= len f + len g - 1; (2) for every x of the union alphabet (all ends of either operand, ±1 ulp, midpoints, beyond both, ±inf, ±MAX, ±0): the piece the selection model picks in the result at x equals, field by field, op(piece of f selected at x, piece of g selected at x) computed with plain f64 +/-; (3) at up to 3 positive x: (f op g)(x) vs the 384-bit f(x) op g(x) within 3e-12·(M_f+M_g). Non-trivial: both operands >=2 pieces with different end sets. Extra: all pairs of sorted multisets of <=3 ends over a 4-point lattice x both operators.".into()
     }
     fn cases(&self, tier: Tier) -> u64 {
-        tier.pick(200_000, 5_000_000)
+        tier.pick(200_000, 2_000_000)
     }
     fn strategy(&self, tier: Tier) -> BoxedStrategy<Case> {
         let l = tier.pick(8usize, 24usize);
